@@ -29,4 +29,7 @@ VARIANTS = [
     # wave 6: what the affinity is computed through
     V("bbox-corners-rounded(C03/R03.3)", "src/soundevent/data/geometries.py", "        return [start_time, low_freq, end_time, high_freq]", "        return [round(start_time, 6), round(low_freq, 6), round(end_time, 6), round(high_freq, 6)]", "C03/R03.3"),
     V("polygon-holes-dropped(C05/R05.2)", "src/soundevent/geometry/conversion.py", "    shell = geom.coordinates[0]\n    holes = geom.coordinates[1:]", "    shell = geom.coordinates[0]\n    holes = []", "C05/R05.2"),
+    # the private helper written out in its caller
+    V("N-prepare-helper-inlined", "src/soundevent/evaluation/affinity.py", '    geometry1 = _prepare_geometry(geometry1, time_buffer, freq_buffer)\n    geometry2 = _prepare_geometry(geometry2, time_buffer, freq_buffer)\n', '    if geometry1.type in BUFFER_GEOMETRY_TYPES:\n        geometry1 = buffer_geometry(geometry1, time_buffer=time_buffer, freq_buffer=freq_buffer)\n    if geometry2.type in BUFFER_GEOMETRY_TYPES:\n        geometry2 = buffer_geometry(geometry2, time_buffer=time_buffer, freq_buffer=freq_buffer)\n', None, also=(("src/soundevent/evaluation/affinity.py", '\n\ndef _prepare_geometry(\n    geometry: data.Geometry,\n    time_buffer: float = 0.01,\n    freq_buffer: float = 100,\n) -> data.Geometry:\n    if geometry.type in BUFFER_GEOMETRY_TYPES:\n        return buffer_geometry(\n            geometry,\n            time_buffer=time_buffer,\n            freq_buffer=freq_buffer,\n        )\n\n    return geometry\n', "\n"),)),
+    V("prepare-helper-inlined-buffers-crossed", "src/soundevent/evaluation/affinity.py", '    geometry1 = _prepare_geometry(geometry1, time_buffer, freq_buffer)\n    geometry2 = _prepare_geometry(geometry2, time_buffer, freq_buffer)\n', '    if geometry1.type in BUFFER_GEOMETRY_TYPES:\n        geometry1 = buffer_geometry(geometry1, time_buffer=time_buffer, freq_buffer=freq_buffer)\n    if geometry2.type in BUFFER_GEOMETRY_TYPES:\n        geometry2 = buffer_geometry(geometry2, time_buffer=freq_buffer, freq_buffer=time_buffer)\n', "R06.3", also=(("src/soundevent/evaluation/affinity.py", '\n\ndef _prepare_geometry(\n    geometry: data.Geometry,\n    time_buffer: float = 0.01,\n    freq_buffer: float = 100,\n) -> data.Geometry:\n    if geometry.type in BUFFER_GEOMETRY_TYPES:\n        return buffer_geometry(\n            geometry,\n            time_buffer=time_buffer,\n            freq_buffer=freq_buffer,\n        )\n\n    return geometry\n', "\n"),)),
 ]
